@@ -337,8 +337,10 @@ theorem kdf_eq (c : CryptoOps) (key : Bytes) (const rights : Nat) (blk : Bool) (
     (hk : keyBits = 128 ∨ keyBits = 256) :
     kdf c key const rights blk keyBits =
       deriveKey c key const rights (if blk then Sb31Consts.kdfModeBlk else Sb31Consts.kdfModeKdk) keyBits := by
-  simp only [kdf, deriveKey, kdfInput_eq _ _ _ _ _ hr hk, Sb31Consts.kdfIterations, Sb31Consts.kdfTwoBlockKeyLen]
-  rfl
+  have e1 := kdfInput_eq const rights blk keyBits 1 hr hk
+  have e2 := kdfInput_eq const rights blk keyBits 2 hr hk
+  rcases hk with rfl | rfl <;>
+    simp [kdf, deriveKey, Sb31Consts.kdfIterationsFor, List.find?, List.flatMap, e1, e2]
 
 /-! ## hash chain -/
 
@@ -514,18 +516,24 @@ theorem updTotalLength_eq (old h cert : Nat) : Sb31Consts.updTotalLength old h c
 /-- the chain of every export starts from the all-zero hash, not from the hash left by an earlier export -/
 theorem chainStartHash_eq (old : Bytes) (h : Nat) : Sb31Consts.chainStartHash old h = zeros h := rfl
 
-theorem headerOf_eq (s : ObjState) :
+/-- the per-hash-length layout functions (generated by executing the properties for both hash lengths) -/
+theorem layout_eq (h : Nat) (hh : h = 32 ∨ h = 48) :
+    Sb31Consts.certBlockOffset h = 60 + h ∧ Sb31Consts.blockSize h = 260 + h := by
+  rcases hh with rfl | rfl <;> exact ⟨by decide, by decide⟩
+
+theorem headerOf_eq (s : ObjState) (hh : s.cfg.hashLen = 32 ∨ s.cfg.hashLen = 48) :
     headerOf s (dataBlocks (cmdStream s.cmds)).length
       (Sb31Consts.updTotalLength s.totalLength s.cfg.hashLen s.cfg.cert.length) = hdrSpec s := by
+  have hl := layout_eq _ hh
+  have hi : (if s.cfg.isNxp then Sb31Consts.imageTypeNxp else Sb31Consts.imageTypeOem) = if s.cfg.isNxp then 7 else 6 := by
+    cases s.cfg.isNxp <;> decide
   unfold headerOf hdrSpec
-  congr 1 <;>
-    simp only [dataBlocks_length, cmdStream_length, updTotalLength_eq, Sb31Consts.blockSize,
-      Sb31Consts.certBlockOffset, Sb31Consts.imageTypeNxp, Sb31Consts.imageTypeOem] <;> omega
+  rw [hl.1, hl.2, hi, dataBlocks_length, cmdStream_length, updTotalLength_eq]
 
-theorem exportSb_bytes (c : CryptoOps) (s : ObjState) (r : Rand) :
+theorem exportSb_bytes (c : CryptoOps) (s : ObjState) (r : Rand) (hh : s.cfg.hashLen = 32 ∨ s.cfg.hashLen = 48) :
     (exportSb c s r).2 =
       encHeader (hdrSpec s) ++ ((chainOf c s).1 ++ (s.cfg.cert ++ (sigOf c s r ++ (chainOf c s).2.flatten))) := by
-  simp only [exportSb, headerOf_eq, chainStartHash_eq, sigOf, signedOf, chainOf, List.append_assoc]
+  simp only [exportSb, headerOf_eq s hh, chainStartHash_eq, sigOf, signedOf, chainOf, List.append_assoc]
 
 theorem exportSb_state (c : CryptoOps) (s : ObjState) (r : Rand) :
     (exportSb c s r).1.cfg = s.cfg ∧ (exportSb c s r).1.cmds = s.cmds ∧ (exportSb c s r).1.keyLen = s.keyLen ∧
@@ -562,7 +570,7 @@ theorem romLoad_export {c : CryptoOps} (hc : CryptoLaws c) (s : ObjState) (hg : 
   have hb0 := parseBlock0_ok c dev.rotkh (hdrSpec s) hHwf s.cfg.hashLen hhl rfl rfl
     (by simp only [hdrSpec]; split <;> simp) hbc (chainOf c s).1 s.cfg.cert (sigOf c s r) (chainOf c s).2.flatten
     hh1 rfl (wf.sigLen _ _) _ obs hd.cert rfl (hc.verify_sign _ _ _ _) hdata
-  rw [exportSb_bytes]
+  rw [exportSb_bytes _ _ _ hg.hl]
   unfold romLoad
   simp only [bind, Except.bind, hb0]
   have hw := walk_buildChain hc s s.cfg.hashLen rfl hhl (decFn c dev s.cfg.timestamp s.cfg.hashLen)
@@ -623,7 +631,7 @@ theorem export_length {c : CryptoOps} (hc : CryptoLaws c) (s : ObjState) (hg : G
   have hbl := buildChain_block_length hc s (zeros s.cfg.hashLen) _ rfl hg.hl (by simp)
     (fun j b hb => encPayload_length hc s j b hb) (dataBlocks (cmdStream s.cmds)) 1 (dataBlocks_mem _)
   have hH : (encHeader (hdrSpec s)).length = 60 := encHeader_length _ (adjustDesc_length _)
-  rw [exportSb_bytes]
+  rw [exportSb_bytes _ _ _ hg.hl]
   simp only [List.length_append, hH, sigOf, wf.sigLen,
     buildChain_fst_length hc s _ _ rfl hg.hl (by simp : (zeros s.cfg.hashLen).length = s.cfg.hashLen), chainOf,
     flatten_length_const _ _ hbl, buildChain_length, dataBlocks_length, cmdStream_length]
@@ -915,7 +923,7 @@ theorem whole_file_bound {c : CryptoOps} (hc : CryptoLaws c) (s : ObjState) (hg 
   · rw [hm] at hsplit
     rw [hsplit] at h ⊢
     exact (tamper_blocks_detected hc s hg wf dev obs hd r b0.rest res h).elim
-      (fun e => Or.inl (by rw [e, exportSb_bytes]; simp [signedOf, List.append_assoc])) Or.inr
+      (fun e => Or.inl (by rw [e, exportSb_bytes _ _ _ hg.hl]; simp [signedOf, List.append_assoc])) Or.inr
   · right
     refine Break.sigForgery (sigAlgOf s.cfg.hashLen) s.cfg.sk (signedOf c s) _ r (fun e => hm e.symm) ?_
     rw [hcoord] at hver ⊢
